@@ -8,7 +8,7 @@ entry and exit points, completion rows (acyclic by construction).  spec.normaliz
 import random
 import zlib
 
-PROFILES = ("struct", "hist", "pseudo", "compl", "evh", "dfb", "dfm", "ser", "sto")
+PROFILES = ("struct", "hist", "pseudo", "compl", "evh", "dfb", "dfm", "ser", "sto", "blk")
 
 
 def rand_spec(profile, seed):
@@ -89,6 +89,8 @@ def rand_spec(profile, seed):
 
     for mi in range(len(shape)):
         nreg = rnd.choice([1, 1, 2, 2, 3]) if shape[mi] < 2 else rnd.choice([1, 1, 2])
+        if profile == "blk" and mi == 0:
+            nreg = rnd.choice([2, 3])       # terminate and interrupt states in different regions of the root
         if profile in ("dfb", "sto") and mi == 0:
             nreg = 1            # back: no sibling region may handle what a state defers (documented limitation)
         regions = [[sname() for _ in range(rnd.randint(2, 4))] for _ in range(nreg)]
@@ -101,6 +103,23 @@ def rand_spec(profile, seed):
             cands = [s for reg in M["regions"] for s in reg if s not in M["kinds"]]
             s = rnd.choice(cands)
             M["kinds"][s] = "sub:M%d" % ch
+    blk_end = {}
+    if profile == "blk":
+        # C11 / C13 quantifier: blocking states in the machine that receives the events (the root), 1-2 end-interrupt events
+        M0 = machines[0]
+        regs = list(range(len(M0["regions"])))
+        rnd.shuffle(regs)
+        for which, ri in zip(("terminate", "interrupt"), regs):
+            cand = [s_ for s_ in M0["regions"][ri][1:] if s_ not in M0["kinds"]]
+            if not cand:
+                continue
+            s_ = rnd.choice(cand)
+            if which == "terminate":
+                M0["kinds"][s_] = "terminate"
+            else:
+                ends = rnd.sample(trig[:nev], rnd.randint(1, 2))
+                M0["kinds"][s_] = "interrupt:" + ",".join(ends)
+                blk_end[s_] = ends
     pools = [[] for _ in machines]      # guard leaves are shared between rows of one machine, never across machines: a
                                         # plan addresses "the n-th evaluation of leaf g in this op", which must not depend
                                         # on how many levels a back-end consults
@@ -144,6 +163,10 @@ def rand_spec(profile, seed):
                 else:
                     tgt = rnd.choice(normal + ([M["_exit_pts"][ri][0]] if ri in M["_exit_pts"] and rnd.random() < 0.4 else []))
                     M["rows"].append("%s + %s%s%s -> %s" % (src, ev, guard(pool), actions(), tgt))
+            for s_, ends in (blk_end.items() if mi == 0 else []):
+                if s_ in reg:
+                    for e_ in ends:
+                        M["rows"].append("%s + %s%s%s -> %s" % (s_, e_, guard(pool), actions(), rnd.choice([x for x in normal if x != s_] or normal)))
             # every pseudo state takes part in the table of its machine (documented usage)
             if ri in M["_exit_pts"] and not any(r.endswith("-> " + M["_exit_pts"][ri][0]) for r in M["rows"]):
                 M["rows"].append("%s + %s%s%s -> %s" % (rnd.choice(normal), rnd.choice(trig[:nev]), guard(pool), actions(), M["_exit_pts"][ri][0]))
